@@ -19,6 +19,7 @@ TraceInit == EmptyPool /\ l = 1
 
 TSession  == IsEvent("session") /\ UNCHANGED pvars
 TNew      == IsEvent("pnew") /\ PNewCore(Ev.min, Ev.max, Ev.rules, Ev.model)
+TNewTry   == IsEvent("pnew_try") /\ ~Ev.panic /\ PNewTryCore(Ev.min, Ev.max, Ev.model, Ev.textok, Ev.ok)
 TArrive   == IsEvent("arrive") /\ ArriveCore(Ev.q, Rng(Ev.keys), Ev.names, Ev.fail)
 TPop      == IsEvent("pop") /\ (CheckLocks => Ev.locked = 1) /\ PopCore(Ev.q, Ev.i, Ev.len)
 TSpin     == IsEvent("spin") /\ SpinCore
@@ -36,7 +37,7 @@ TUpdEnd   == IsEvent("upd_end") /\ ~Ev.panic /\ UpdEndCore(Ev.ok)
 TSetModel == IsEvent("setmodel") /\ SetModelCore(Ev.m, Ev.ok)
 TQuery    == IsEvent("query") /\ QueryCore(Ev.kind, Ev.arg, Ev.res, Ev.err)
 
-TraceProper == TSession \/ TNew \/ TArrive \/ TPop \/ TSpin \/ TPeek \/ TArgPair \/ TRule \/ TReturn \/ TPush
+TraceProper == TSession \/ TNew \/ TNewTry \/ TArrive \/ TPop \/ TSpin \/ TPeek \/ TArgPair \/ TRule \/ TReturn \/ TPush
                \/ TQuiesce \/ TFrozen \/ TUpdBegin \/ TPublish \/ TIncrMid \/ TUpdEnd \/ TSetModel \/ TQuery
 
 NextSession(i) ==
